@@ -677,4 +677,65 @@ theorem tie_queue_updateWithResp_assigns : updateWithRespAssigns =
   ["cq.dontupdate[uuid] = struct{}{}",
    "cq.current[uuid] = ent"] := rfl
 
+/-- `getInstancesAndSync`: throttle check, `Instances()`, and on *any* error `return` before `wp.sync` (`C14.Pool.getInstancesAndSync`, `C14_failed_listing_drops_nothing`; seed C14-e let a rate-limit error fall through to `sync(threshold, nil)`). -/
+theorem tie_pool_getInstancesAndSync : getInstancesAndSyncSkeleton =
+  ["call wp.instanceSet.throttleInstances.Error => err",
+   "if err != nil {",
+   "return",
+   "}",
+   "call wp.instanceSet.Instances => instances,err",
+   "if err != nil {",
+   "call wp.instanceSet.throttleInstances.CheckRateLimitError",
+   "return",
+   "}",
+   "call wp.sync",
+   "return"] := rfl
+
+/-- `runSync` reaches `Pool.sync` only through `getInstancesAndSync`. -/
+theorem tie_pool_runSync : runSyncSkeleton =
+  ["for {",
+   "case {",
+   "call wp.getInstancesAndSync => err",
+   "if err != nil {",
+   "}",
+   "}",
+   "case {",
+   "return",
+   "}",
+   "}"] := rfl
+
+/-- `probeRunning`: one pass over all lines of the answer, classifying each (`C14.ProbeLine`, `parseProbe`); no `break`/`return` inside the loop (`C14_probe_reads_every_line`; seed C14-f stopped reading at "broken"). -/
+theorem tie_worker_probeRunning : probeRunningSkeleton =
+  ["if u != \"root\" {",
+   "}",
+   "call wkr.executor.Execute => stdout,stderr,err",
+   "if err != nil {",
+   "return",
+   "}",
+   "call strings.Split",
+   "for {",
+   "if s == \"\" {",
+   "} else {",
+   "if s == \"broken\" {",
+   "} else {",
+   "call strings.Split => toks",
+   "if len(toks) == 1 {",
+   "} else {",
+   "if toks[1] == \"stale\" {",
+   "}",
+   "}",
+   "}",
+   "}",
+   "}",
+   "defer",
+   "if !staleRunLock {",
+   "} else {",
+   "if wkr.staleRunLockSince.IsZero() {",
+   "} else {",
+   "if dur > wkr.wp.timeoutStaleRunLock {",
+   "}",
+   "}",
+   "}",
+   "return"] := rfl
+
 end ArvVerif.Tie.C14
